@@ -51,6 +51,8 @@ type Run struct {
 	pendingFault string
 	virtualStart time.Time
 	header       int
+	hintWaitSub  string // wake profile: canned scenarios bias the first waiter / writer
+	hintWriter   int
 }
 
 func (r *Run) ev(f string, a ...any) {
@@ -222,9 +224,18 @@ func (r *Run) genCfg(forceOrdered, forceDL int) (SubCfg, *pubsubpb.Subscription)
 	if r.Variant == "dl" {
 		dlP = 80
 	}
+	if r.Variant == "wake" {
+		dlP = 45
+	}
 	if t.Bool(dlP) {
 		dt := r.M.LiveTopic(topicName(t.Intn(r.nTopics)))
 		n := int32(1 + t.Intn(6))
+		if r.Variant == "wake" && n > 2 {
+			n -= 2 + n%2*0 - 0
+			if n > 2 {
+				n = 1
+			}
+		}
 		if dt != nil {
 			cfg.DLTopic = dt
 			cfg.MaxAttempts = n
@@ -331,6 +342,9 @@ func (r *Run) do(method string, req proto.Message) (proto.Message, opResult) {
 		r.Sim.stallFor = time.Duration(k) * 7 * time.Second
 		r.Sim.Arm(FaultKind(kind), k, cancel)
 		r.stat("armed_" + FaultKind(kind).String())
+	}
+	if method == "Pull" {
+		r.nudge(5 * time.Millisecond)
 	}
 	res.t0 = time.Now()
 	resp, err := r.W.Call(ctx, method, req)
@@ -1516,4 +1530,43 @@ func RunHist(r *Run, steps int) *Violation {
 		}
 	}
 	return nil
+}
+
+// nudge: scheduling hygiene, not an oracle. A pull whose server-side "now" falls within
+// microseconds of a stored attempt_at makes mmmbbb's own select (timeout vs next-attempt
+// timer, both ready) decide the outcome, and Go resolves that at random: the run would not
+// replay. If any outstanding delivery's deadline lies inside the coming window the clock is
+// moved just past it, so that no operation ever straddles a deadline at microsecond distance.
+func (r *Run) nudge(window time.Duration) {
+	conn, err := sql.Open("sqlite3", "file:"+r.W.file+".sqlite3?mode=ro&_busy_timeout=10000")
+	if err != nil {
+		return
+	}
+	defer conn.Close()
+	for i := 0; i < 8; i++ {
+		now := time.Now()
+		rows, err := conn.Query("SELECT attempt_at, expires_at FROM deliveries WHERE completed_at IS NULL")
+		if err != nil {
+			return
+		}
+		var latest time.Time
+		for rows.Next() {
+			var a, b any
+			if rows.Scan(&a, &b) != nil {
+				continue
+			}
+			for _, t := range []time.Time{asTime(a), asTime(b)} {
+				if t.After(now.Add(-time.Millisecond)) && t.Before(now.Add(window)) && t.After(latest) {
+					latest = t
+				}
+			}
+		}
+		rows.Close()
+		if latest.IsZero() {
+			return
+		}
+		r.stat("nudged_past_deadline")
+		time.Sleep(latest.Sub(now) + time.Millisecond + 7*time.Microsecond)
+		r.Sim.Settle()
+	}
 }
